@@ -84,6 +84,9 @@ pub fn within_bounds(text: &str) -> bool {
 
 pub const CALLS_PER_BYTE: usize = 200;
 pub const CALLS_SLACK: usize = 16;
+/// steps of the validator's recursive analyses per byte of text (largest ratio measured on the repository's
+/// grammars and a libFuzzer corpus: 3; a chain of 290 rules each looking down the whole chain: ~10)
+pub const VALIDATOR_STEPS_PER_BYTE: usize = 150;
 
 /// Some(budget) when parsing `text` as a grammar needs more combinator calls than the linear budget.
 pub fn call_budget_exceeded(text: &str) -> Option<usize> {
@@ -123,6 +126,7 @@ pub fn check_text(ctx: &mut Ctx, text: &str, origin: &str) -> Result<(), Fail> {
         // attribution by counterfactual: the same text with every "/*" blanked
         let neutral = text.replace("/*", "  ");
         let sig = if call_budget_exceeded(&neutral).is_none() { "c09:call-budget-exceeded:block-comment-openers" } else { "c09:call-budget-exceeded" };
+        ctx.class(&format!("{origin}:{sig}"));
         return Err(Fail::new(
             sig,
             format!("the meta parser needs more than {over} combinator calls for this {}-byte text (budget {CALLS_PER_BYTE}*(len+{CALLS_SLACK})): super-linear backtracking ({origin}):\n{text}", text.len()),
@@ -137,7 +141,11 @@ pub fn check_text(ctx: &mut Ctx, text: &str, origin: &str) -> Result<(), Fail> {
             let d = pest_generator::docs::consume(pairs);
             let _ = format!("{d:?}");
         }
-        match pest_meta::parse_and_optimize(text) {
+        // the validator's recursive analyses get a step budget of their own (cfg hook in meta/src/validator.rs)
+        pest_meta::validator::verif::reset(VALIDATOR_STEPS_PER_BYTE * (text.len() + CALLS_SLACK));
+        let optimized = pest_meta::parse_and_optimize(text);
+        pest_meta::validator::verif::reset(usize::MAX);
+        match optimized {
             Ok((builtins, rules)) => {
                 let _ = builtins.len();
                 for r in &rules {
@@ -173,7 +181,17 @@ pub fn check_text(ctx: &mut Ctx, text: &str, origin: &str) -> Result<(), Fail> {
             }
         }
     });
+    pest_meta::validator::verif::reset(usize::MAX);
+    if matches!(&r, Err(p) if p.contains(pest_meta::validator::verif::LIMIT_MESSAGE)) {
+        ctx.class(&format!("{origin}:validator-step-budget-exceeded"));
+    }
     match r {
+        Err(p) if p.contains(pest_meta::validator::verif::LIMIT_MESSAGE) => Err(Fail::new(
+            // attribution: the text's rule-reference graph has that many reference paths (harness-side count)
+            if ref_path_count(text) >= 1000 { "c09:validator-step-budget-exceeded:reference-paths" } else { "c09:validator-step-budget-exceeded" },
+            format!("validating this {}-byte text needs more than {} steps of the recursive analyses (left recursion / non-failing / non-progressing; budget {VALIDATOR_STEPS_PER_BYTE}*(len+{CALLS_SLACK})): the analyses enumerate paths through rule references ({origin}):\n{text}", text.len(), VALIDATOR_STEPS_PER_BYTE * (text.len() + CALLS_SLACK)),
+            case,
+        )),
         Err(p) => {
             let what = if p.contains("unwrap") || p.contains("ParseIntError") {
                 "number"
@@ -200,6 +218,67 @@ pub fn check_text(ctx: &mut Ctx, text: &str, origin: &str) -> Result<(), Fail> {
             Ok(())
         }
     }
+}
+
+/// Largest number of reference paths starting at any rule of `text` (textual estimate: rule bodies are found by
+/// bracket matching over the rough token list, references are identifier tokens naming a defined rule; a
+/// reference back into the path under construction counts 0). Saturates at 10^12.
+pub fn ref_path_count(text: &str) -> u64 {
+    use std::collections::HashMap;
+    let toks: Vec<String> = tokenise(text).into_iter().filter(|t| !t.chars().all(char::is_whitespace)).collect();
+    let is_ident = |t: &str| t.chars().next().is_some_and(|c| c.is_alphabetic() || c == '_') && t.chars().all(|c| c.is_alphanumeric() || c == '_');
+    let mut bodies: HashMap<String, Vec<String>> = HashMap::new();
+    let mut i = 0;
+    while i + 2 < toks.len() {
+        if is_ident(&toks[i]) && toks[i + 1] == "=" {
+            let mut j = i + 2;
+            if j < toks.len() && ["_", "@", "$", "!"].contains(&toks[j].as_str()) {
+                j += 1;
+            }
+            if j < toks.len() && toks[j] == "{" {
+                let mut depth = 0usize;
+                let mut refs = vec![];
+                while j < toks.len() {
+                    match toks[j].as_str() {
+                        "{" => depth += 1,
+                        "}" => {
+                            depth -= 1;
+                            if depth == 0 {
+                                break;
+                            }
+                        }
+                        t if is_ident(t) => refs.push(t.to_string()),
+                        _ => {}
+                    }
+                    j += 1;
+                }
+                bodies.entry(toks[i].clone()).or_insert(refs);
+                i = j;
+            }
+        }
+        i += 1;
+    }
+    fn paths(r: &str, bodies: &HashMap<String, Vec<String>>, memo: &mut HashMap<String, u64>, stack: &mut Vec<String>) -> u64 {
+        if let Some(v) = memo.get(r) {
+            return *v;
+        }
+        if stack.iter().any(|s| s == r) || stack.len() > 300 {
+            return 0;
+        }
+        stack.push(r.to_string());
+        let mut n: u64 = 1;
+        for x in bodies.get(r).map(|v| v.as_slice()).unwrap_or(&[]) {
+            if bodies.contains_key(x) {
+                n = n.saturating_add(paths(x, bodies, memo, stack)).min(1_000_000_000_000);
+            }
+        }
+        stack.pop();
+        memo.insert(r.to_string(), n);
+        n
+    }
+    let mut memo = HashMap::new();
+    let names: Vec<String> = bodies.keys().cloned().collect();
+    names.iter().map(|r| paths(r, &bodies, &mut memo, &mut vec![])).max().unwrap_or(0)
 }
 
 // ----------------------------------------------------------------- generators
@@ -327,6 +406,13 @@ pub fn corpus() -> Vec<String> {
 }
 
 pub fn run(ctx: &mut Ctx) {
+    let mut t0 = std::time::Instant::now();
+    let mut lap = |ctx: &mut Ctx, what: &str| {
+        if ctx.shard == 0 {
+            ctx.notes.push(format!("shard 0: stream {what} took {:.1}s", t0.elapsed().as_secs_f64()));
+        }
+        t0 = std::time::Instant::now();
+    };
     let corp = corpus();
     ctx.class_n("corpus-chunks", corp.len() as u64);
     let n = ctx.share(ctx.tier.pick(600_000, 10_000_000));
@@ -336,6 +422,7 @@ pub fn run(ctx: &mut Ctx) {
         let c2 = corp.clone();
         let strat = (0..corp.len(), ops()).prop_map(move |(i, o)| mutate(&c2[i], &o));
         ctx.run_prop(n / 4, 1, strat, |ctx, t| check_text(ctx, t, "mutated-repo-grammar"));
+    lap(ctx, "mutated-repo-grammar");
         // every truncation point of the smallest chunks (by shard)
         for (k, c) in corp.iter().enumerate() {
             if c.len() < 1500 && (k as u64) % ctx.nshards == ctx.shard {
@@ -354,12 +441,15 @@ pub fn run(ctx: &mut Ctx) {
     // (a2) mutated generated grammars (canonical printing of valid generated grammars)
     let strat = (grammar_strategy(GenCfg::standard(EXTRAS)), ops()).prop_map(|(g, o)| mutate(&print_grammar(&g), &o));
     ctx.run_prop(n / 2, 2, strat, |ctx, t| check_text(ctx, t, "mutated-generated-grammar"));
+    lap(ctx, "mutated-generated-grammar");
     // (b) token soup over the meta-grammar's dictionary
     let strat = proptest::collection::vec((0..DICT.len(), 0..GAPS.len()), 0..30).prop_map(|v| v.iter().map(|(d, g)| format!("{}{}", DICT[*d], GAPS[*g])).collect::<String>());
     ctx.run_prop(n / 4, 3, strat, |ctx, t| check_text(ctx, t, "token-soup"));
+    lap(ctx, "token-soup");
     // (c) rule-shaped soup: name = { soup }
     let strat = proptest::collection::vec((0..DICT.len(), 0..GAPS.len()), 0..16).prop_map(|v| format!("r0 = {{ {} }}", v.iter().map(|(d, g)| format!("{}{}", DICT[*d], GAPS[*g])).collect::<String>()));
     ctx.run_prop(n / 4, 4, strat, |ctx, t| check_text(ctx, t, "rule-shaped-soup"));
+    lap(ctx, "rule-shaped-soup");
     // (d) one or two unterminated constructs repeated up to 60 times (the shape on which backtracking compounds)
     let strat = (0..FRAGMENTS.len(), 0..FRAGMENTS.len(), 0..GAPS.len(), 1usize..60, any::<bool>(), any::<bool>()).prop_map(|(a, b, g, k, two, wrap)| {
         let mut t = String::new();
@@ -374,6 +464,23 @@ pub fn run(ctx: &mut Ctx) {
         }
     });
     ctx.run_prop(n / 16, 5, strat, |ctx, t| check_text(ctx, t, "repeated-open-construct"));
+    lap(ctx, "repeated-open-construct");
+    // (e) reference lattices: r_i refers to r_(i+1) twice (or to r_(i+1) and r_(i+2)) under a chosen shape, so the
+    // number of reference paths doubles per level while the text grows by one line
+    const SHAPES: [&str; 10] = ["X | Y", "X ~ Y", "!X ~ Y", "&X ~ Y", "X? ~ Y", "(X | Y)*", "(X ~ Y)+", "X* ~ Y", "(X | \"q\") ~ Y", "PUSH(X) ~ Y"];
+    const LEAVES: [&str; 6] = ["\"a\"", "\"\"", "!\"a\"", "\"a\"?", "ANY", "\"a\"*"];
+    let strat = (proptest::collection::vec(0..SHAPES.len(), 1..28), 0..LEAVES.len(), any::<bool>(), 0..4usize).prop_map(|(shapes, leaf, skip, modifier)| {
+        let n = shapes.len();
+        let mut t = String::new();
+        for (i, sh) in shapes.iter().enumerate() {
+            let y = if skip && i + 2 <= n { i + 2 } else { i + 1 };
+            t.push_str(&format!("r{i} = {}{{ {} }}\n", ["", "_", "@", "$"][modifier], SHAPES[*sh].replace('X', &format!("r{}", i + 1)).replace('Y', &format!("r{y}"))));
+        }
+        t.push_str(&format!("r{n} = {{ {} }}\n", LEAVES[leaf]));
+        t
+    });
+    ctx.run_prop(n / 128, 6, strat, |ctx, t| check_text(ctx, t, "reference-lattice"));
+    lap(ctx, "reference-lattice");
 }
 
 /// Unterminated or half-open constructs; stream (d) repeats one or two of them many times.
@@ -389,7 +496,7 @@ pub fn replay(case: &Value) -> Result<(), Fail> {
 
 pub const DEF: CheckDef = CheckDef {
     id: "C09",
-    rule: "Texts, not grammars: (a1) chunks of the repository's .pest files mutated at token level (delete/duplicate/swap/replace/insert from a dictionary of meta-grammar tokens incl. out-of-range numbers, malformed and out-of-range escapes, lone quotes, non-ASCII; truncation at a token or inside one; numbers replaced by 0 / 2^31 +- 1 / 2^32 +- 1 / 2^64) and every byte-truncation of the small chunks; (a2) the same mutations of canonical printings of generated valid grammars; (b) random token soup over that dictionary with random gaps/comments; (c) the same soup wrapped as `r0 = { ... }`; (d) one or two unterminated constructs (comment/paren/bracket/string/PUSH/PEEK/repetition openers, dangling operators) repeated 1..60 times. Stated bounds: text <= 4 KiB, bracket nesting <= 200, product of the in-range numbers inside {..} suffixes <= 4096 and that product x text length <= 256 KiB (the unroller copies the repeated expression; larger cases are filtered before the call and counted under excluded_by_construction). Oracle: (time) the syntactic parse stays within 200*(len+16) combinator calls, enforced with pest's own call limit, and a text over budget is attributed by re-running it with every `/*` blanked; (totality) parse_and_optimize and generator::docs::consume return under catch_unwind (worker survival = no abort); on Err the list is non-empty, every location lies in 0..=len on char boundaries with start <= end, Display and renamed_rules(rename_meta_rule) render; on Ok Display of every optimized expression renders. Non-trivial = the text gets past the meta parser (reaches consumption/validation) or its first error lies within 12 bytes of the end; distinct = distinct text.",
+    rule: "Texts, not grammars: (a1) chunks of the repository's .pest files mutated at token level (delete/duplicate/swap/replace/insert from a dictionary of meta-grammar tokens incl. out-of-range numbers, malformed and out-of-range escapes, lone quotes, non-ASCII; truncation at a token or inside one; numbers replaced by 0 / 2^31 +- 1 / 2^32 +- 1 / 2^64) and every byte-truncation of the small chunks; (a2) the same mutations of canonical printings of generated valid grammars; (b) random token soup over that dictionary with random gaps/comments; (c) the same soup wrapped as `r0 = { ... }`; (d) one or two unterminated constructs (comment/paren/bracket/string/PUSH/PEEK/repetition openers, dangling operators) repeated 1..60 times; (e) reference lattices: 1..28 rules r_i = { shape(r_(i+1), r_(i+1 or i+2)) } over ten shapes (choice, sequence, predicates, optionals, repetitions, PUSH) and six leaves. Stated bounds: text <= 4 KiB, bracket nesting <= 200, product of the in-range numbers inside {..} suffixes <= 4096 and that product x text length <= 256 KiB (the unroller copies the repeated expression; larger cases are filtered before the call and counted under excluded_by_construction). Oracle: (time) the syntactic parse stays within 200*(len+16) combinator calls, enforced with pest's own call limit, and a text over budget is attributed by re-running it with every `/*` blanked, and the validator's recursive analyses stay within 150*(len+16) steps (cfg hook with a step limit); (totality) parse_and_optimize and generator::docs::consume return under catch_unwind (worker survival = no abort); on Err the list is non-empty, every location lies in 0..=len on char boundaries with start <= end, Display and renamed_rules(rename_meta_rule) render; on Ok Display of every optimized expression renders. Non-trivial = the text gets past the meta parser (reaches consumption/validation) or its first error lies within 12 bytes of the end; distinct = distinct text.",
     assumptions: &["'bounded time' is read as a linear budget of combinator calls for the meta parser (200 per byte; largest ratio measured on texts without the known blow-up: 28); validation and optimisation time is bounded by the stated size bounds only, and a watchdog kill there is reported as inconclusive (exit 2), never as a violation"],
     floor: |t| t.pick(50_000, 500_000),
     shards: |_| 16,
